@@ -236,6 +236,13 @@ def cpMatches (p : CPat) (name : List Char) : Bool :=
   | .base => bodyMatch p (basename name)
   | .ext => (dotSuffixes (basename name)).any (bodyMatch p)
 
+/-- what the regex of a group of kind `k` demands of one of its alternatives -/
+def kindMatches (k : Kind) (p : CPat) (name : List Char) : Bool :=
+  match k with
+  | .full => bodyMatch p name
+  | .base => bodyMatch p (basename name)
+  | .ext => (dotSuffixes (basename name)).any (bodyMatch p)
+
 /-! ## Globster -/
 
 /-- `while patterns: … patterns[:g] …; patterns = patterns[g:]` (fuel = length) -/
@@ -255,6 +262,13 @@ def groupMatch (k : Kind) (grp : List CPat) (name : List Char) : Option CPat :=
   | .base => grp.find? fun p => bodyMatch p (basename name)
   | .ext => (dotSuffixes (basename name)).reverse.findSome? fun suf => grp.find? fun p => bodyMatch p suf
 
+/-- VARIANT (not the current code): the group regex when every extension
+alternative carries its own `.*\.` instead of sharing a greedy prefix — the
+alternatives are then tried strictly in order for every type.  Selected by the
+harness only if the source has that shape (see harness/checks/c48.py). -/
+def groupMatchO (k : Kind) (grp : List CPat) (name : List Char) : Option CPat :=
+  grp.find? fun p => kindMatches k p name
+
 def ofKind (k : Kind) (cps : List CPat) : List CPat := cps.filter fun p => p.kind == k
 
 def typeOrder : List Kind := [.ext, .base, .full]
@@ -266,6 +280,9 @@ def groups (g : Nat) (cps : List CPat) : List (Kind × List CPat) :=
 /-- `Globster.match` -/
 def globsterMatch (g : Nat) (cps : List CPat) (name : List Char) : Option CPat :=
   (groups g cps).findSome? fun kg => groupMatch kg.1 kg.2 name
+
+def globsterMatchO (g : Nat) (cps : List CPat) (name : List Char) : Option CPat :=
+  (groups g cps).findSome? fun kg => groupMatchO kg.1 kg.2 name
 
 /-- `_OrderedGlobster`: one group per pattern, in the given order -/
 def orderedMatch (cps : List CPat) (name : List Char) : Option CPat :=
@@ -286,6 +303,12 @@ def exceptionMatch (g : Nat) (p0 p1 p2 : List CPat) (name : List Char) : Option 
   else if truthy (globsterMatch g p1 name) then none
   else (globsterMatch g p0 name).map (·.src)
 
+def exceptionMatchO (g : Nat) (p0 p1 p2 : List CPat) (name : List Char) : Option (List Char) :=
+  let dn := globsterMatchO g p2 name
+  if truthy dn then dn.map fun p => '!' :: '!' :: p.src
+  else if truthy (globsterMatchO g p1 name) then none
+  else (globsterMatchO g p0 name).map (·.src)
+
 /-- the constructor's classification of the raw patterns -/
 def splitExc : List (List Char) → List (List Char) × List (List Char) × List (List Char)
   | [] => ([], [], [])
@@ -298,16 +321,19 @@ def splitExc : List (List Char) → List (List Char) × List (List Char) × List
 
 /-- string level: `Globster(pats).match(name)`; outer `none` = some pattern is
 outside the modelled grammar -/
-def globster (g : Nat) (pats : List (List Char)) (name : List Char) : Option (Option (List Char)) :=
-  (compileAll pats).map fun cps => (globsterMatch g cps name).map (·.src)
+def globster (inOrder : Bool) (g : Nat) (pats : List (List Char)) (name : List Char) : Option (Option (List Char)) :=
+  (compileAll pats).map fun cps =>
+    ((if inOrder then globsterMatchO g cps name else globsterMatch g cps name)).map (·.src)
 
 def ordered (pats : List (List Char)) (name : List Char) : Option (Option (List Char)) :=
   (compileAll pats).map fun cps => (orderedMatch cps name).map (·.src)
 
-def exceptionGlobster (g : Nat) (pats : List (List Char)) (name : List Char) : Option (Option (List Char)) :=
+def exceptionGlobster (inOrder : Bool) (g : Nat) (pats : List (List Char)) (name : List Char) :
+    Option (Option (List Char)) :=
   let s := splitExc pats
   match compileAll s.1, compileAll s.2.1, compileAll s.2.2 with
-  | some p0, some p1, some p2 => some (exceptionMatch g p0 p1 p2 name)
+  | some p0, some p1, some p2 =>
+    some (if inOrder then exceptionMatchO g p0 p1 p2 name else exceptionMatch g p0 p1 p2 name)
   | _, _, _ => none
 
 end BreezyVerif.C48
